@@ -106,6 +106,46 @@ CHECKS['C10'] = dict(
          'atomic step); heapq is an assumed contract (contracts/heap_model.py); async_send_ready_queries is a ghost log event '
          '(question building is C13); the schedule is keyed by instance name only (one browsed type per instance); two '
          'defects found by these obligations were repaired in /repo (known_findings.json)')
+CHECKS['C11'] = dict(
+    text='Routing and format of replies, per function, for all queries, caches and clocks: (1) _QueryResponse.add_qu_question_response '
+         '(QU from port 5353): a record goes to unicast iff the cache saw it multicast within a quarter of its TTL (or the query '
+         'is a probe), and to multicast-at-once iff it was not; add_ucast_question_response (legacy source): everything into the '
+         'unicast reply; the quarter-life predicate DNSRecord.is_recent is proved from its body. (2) QueryHandler.async_response: '
+         'call-site obligations and a counting invariant show that the answers of EVERY strategy are handed to exactly one of the '
+         'QU / multicast classifiers - the QU one only for a QU question from port 5353, the multicast one only for QM questions '
+         'or a legacy source - and additionally to the unicast classifier iff the source port is not 5353; the reply is classified '
+         'with the probe flag of the packets and the first packet\'s questions. (3) handle_assembled_query: legacy iff port != 5353; '
+         'the unicast reply echoes the id and question list of the first packet and is sent to (addr, port) on the receiving '
+         'transport only; every other transmission of the step is a multicast builder to the group on all sockets. (4) answers.py: '
+         'both builders verified against the builder\'s real lists: flags QR|AA, multicast bit, id 0 / echoed id, questions only for '
+         'a legacy source, answers exactly the given records once each. (5) DNSOutgoing._write_record_class: the class word carries '
+         'the cache-flush bit iff the record is unique AND the message is multicast. Header id 0 / flags / TC on the wire are the '
+         'C14 packets() obligations.',
+    design_ref='DESIGN.md section 4 C11',
+    note='_answer_question (which records answer: C03) and the decoder (is_probe, answers: C02) are abstracted; additional-record '
+         'rules of _add_answers_additionals are C03 and not claimed; async_send_with_transport / can_send_to (group address per '
+         'socket family, starred tuple) are not under contract; Zeroconf.async_send is the ghost send log; own multicasts reach '
+         'the cache by loop-back (environment); cache-flush "exactly on non-PTR records" additionally uses the class constants of '
+         'the ServiceInfo record builders (C03 scope)')
+CHECKS['C19'] = dict(
+    category='other',
+    text='BOUNDED stand-in, not a proof: the deductive engine has no string model (str is uninterpreted), and the validator and '
+         'the TXT encoder/decoder are str/bytes manipulation end to end, so no obligation of this property is discharged '
+         'deductively except static scans of the four pattern texts in const.py. What runs instead, on every change: the contract '
+         '"service_type_name returns Valid(s, strict) or raises BadTypeInNameException and nothing else" - Valid written position-'
+         'wise from the statement, independent of the code and its regular expressions - is evaluated around the REAL function '
+         'for every string over an 8-character adversarial alphabet (underscore, lower/upper letter, hyphen, dot, digit, newline, '
+         'non-ASCII) up to length 4 (5 in the thorough tier) before each of six trailers in both modes (56 000 / 400 000 calls) '
+         'plus ~200 boundary names (15/16 characters, 63/64 bytes, 255..258 characters, control characters, _sub forms); and '
+         'the TXT contract "the bytes decode, in the library and in an independent RFC 6763 section 6 parser, to the given keys '
+         'and values" for every dictionary of up to 2 (3) entries over 6 keys x 13 values incl. None, empty, =-containing, '
+         'non-UTF-8 and non-string values, plus 255-byte items. This is the right level only in the sense that it is what is '
+         'within reach here; it found two genuine defects on the pinned tree (both repaired).',
+    design_ref='DESIGN.md section 4 C19 and Build status',
+    technique='contract stated on the real functions, checked by bounded exhaustive enumeration (stand-in for the deductive '
+              'engine, which has no string theory); static scan of regular-expression texts',
+    note='bounded: strings of length <= 4/5 + trailer over 8 characters, dictionaries of <= 2/3 entries; nothing is proved for '
+         'longer inputs; Valid() is a hand transcription of the statement')
 NOT_APPLICABLE = {
     'C07': 'end-to-end liveness over several hosts and lossy delivery: no per-function contract can express it '
            '(DESIGN.md section 6)',
